@@ -7,10 +7,11 @@
 //!     LEVELS  = levels separated by '/', files by ';', file = id:first:last:smallest_ts:biggest_ts:size
 //!   output: `<stall> <mandatory> none` | `<stall> <mandatory> lower upper first last size id,id,..` | `PANIC`
 //! `c20 consts`         the float tables as the same Rust expressions evaluate here (bits of the f64)
+//! `c20 ring DIR SLOTS WRITERS DEADLINE_MS`   writers in flight against a small wait-list ring (see `ring`)
 //! `c20 store DIR FLAGS..`   one session of a real KeyValueStore with its real memtable thread and
 //!   K real compaction threads; ops on stdin:
 //!     put K V | del K | flushreq | flushwait MS K | flush | step | peek | dump | state | threads K | parked
-//!     trace on|off | taketrace | watch MS K | sleep MS
+//!     trace on|off | taketrace | watch MS K | sleep MS | sabotage | unsabotage | waitexit MS N
 use std::collections::HashMap;
 use std::io::{BufRead, Write};
 use std::sync::Arc;
@@ -172,7 +173,8 @@ fn store(args: &[String]) {
         }
     };
     println!("OPEN ok");
-    let exited = Arc::new(AtomicUsize::new(0));
+    let exited = Arc::new(AtomicUsize::new(0)); // the flush thread
+    let cexited = Arc::new(AtomicUsize::new(0)); // compaction threads that returned
     {
         let k2 = Arc::clone(&kvs);
         let ex = Arc::clone(&exited);
@@ -198,6 +200,8 @@ fn store(args: &[String]) {
         }
         let kvs2 = Arc::clone(&kvs);
         let exited2 = Arc::clone(&exited);
+        let cexited2 = Arc::clone(&cexited);
+        let root2 = root.clone();
         let mut spawn = 0usize;
         let mut flush_target = last_flush_target;
         let r = std::panic::catch_unwind(std::panic::AssertUnwindSafe(|| -> String {
@@ -236,12 +240,15 @@ fn store(args: &[String]) {
                             verdict = "done";
                             break;
                         }
-                        if exited2.load(Ordering::SeqCst) > 0 {
+                        // the property's premise: the flush thread and at least one compaction
+                        // thread are running; compaction threads that returned are not waited for
+                        let gone = cexited2.load(Ordering::SeqCst);
+                        if exited2.load(Ordering::SeqCst) > 0 || (k > 0 && gone >= k) {
                             verdict = "threadexit";
                             break;
                         }
                         let p = kvs.verif_tree().verif_parked();
-                        if p.stall >= 1 && p.compact == k && p.ongoing == 0 {
+                        if p.stall >= 1 && p.compact == k - gone && p.ongoing == 0 {
                             verdict = "deadlock";
                             break;
                         }
@@ -327,10 +334,12 @@ fn store(args: &[String]) {
                         let p = kvs.verif_tree().verif_parked();
                         let flush_idle = !st.has_imm && st.imm_trigger < st.mem_seq_no;
                         last = p.clone();
-                        if exited2.load(Ordering::SeqCst) > 0 {
+                        let gone = cexited2.load(Ordering::SeqCst);
+                        if exited2.load(Ordering::SeqCst) > 0 || (k > 0 && gone >= k) {
                             verdict = "threadexit";
                             break;
                         }
+                        let k = k - gone;
                         if p.stall >= 1 && p.compact == k && p.ongoing == 0 {
                             verdict = "deadlock";
                             break;
@@ -346,13 +355,47 @@ fn store(args: &[String]) {
                         std::thread::sleep(std::time::Duration::from_millis(1));
                     }
                     format!(
-                        "WATCH {} stall={} compact={} ongoing={} should_stall={}",
-                        verdict, last.stall, last.compact, last.ongoing, last.should_stall as u8
+                        "WATCH {} stall={} compact={} ongoing={} should_stall={} exited={}",
+                        verdict,
+                        last.stall,
+                        last.compact,
+                        last.ongoing,
+                        last.should_stall as u8,
+                        cexited2.load(Ordering::SeqCst)
                     )
                 }
                 "sleep" => {
                     std::thread::sleep(std::time::Duration::from_millis(t[1].parse().unwrap()));
                     "SLEEP".into()
+                }
+                // fault injection without a tracer: the directory in which every merging
+                // compaction creates its output directory is replaced by a regular file, so
+                // compaction_setup's create_dir fails (ENOTDIR) and perform_compaction returns Err
+                "sabotage" => {
+                    let dir = format!("{root2}/compaction");
+                    let saved = format!("{root2}/compaction.saved");
+                    match std::fs::rename(&dir, &saved).and_then(|_| std::fs::write(&dir, b"not a directory")) {
+                        Ok(()) => "SABOTAGE ok".into(),
+                        Err(e) => format!("SABOTAGE err {e}"),
+                    }
+                }
+                "unsabotage" => {
+                    let dir = format!("{root2}/compaction");
+                    let saved = format!("{root2}/compaction.saved");
+                    match std::fs::remove_file(&dir).and_then(|_| std::fs::rename(&saved, &dir)) {
+                        Ok(()) => "UNSABOTAGE ok".into(),
+                        Err(e) => format!("UNSABOTAGE err {e}"),
+                    }
+                }
+                "waitexit" => {
+                    // until N compaction threads have returned
+                    let ms: u64 = t[1].parse().unwrap();
+                    let n: usize = t[2].parse().unwrap();
+                    let t0 = std::time::Instant::now();
+                    while t0.elapsed().as_millis() < ms as u128 && cexited2.load(Ordering::SeqCst) < n {
+                        std::thread::sleep(std::time::Duration::from_millis(1));
+                    }
+                    format!("WAITEXIT {}", cexited2.load(Ordering::SeqCst))
                 }
                 _ => format!("BADOP {}", t[0]),
             }
@@ -360,7 +403,7 @@ fn store(args: &[String]) {
         last_flush_target = flush_target;
         for _ in 0..spawn {
             let k2 = Arc::clone(&kvs);
-            let ex = Arc::clone(&exited);
+            let ex = Arc::clone(&cexited);
             nthreads += 1;
             let n = nthreads;
             std::thread::spawn(move || {
@@ -385,6 +428,80 @@ fn store(args: &[String]) {
     std::process::exit(0);
 }
 
+/// `c20 ring DIR SLOTS WRITERS DEADLINE_MS`: WRITERS puts in flight at once on a store whose wait
+/// list has SLOTS slots (hook sync42::verif::set_slots; production: MAX_CONCURRENCY = 65536).
+/// Writer 0 is held after its log append (gate w_logged), the others start one by one behind it,
+/// then a reader, then writer 0 is released.  Prints how many operations returned by the deadline.
+fn ring(args: &[String]) {
+    let root = args[0].clone();
+    let slots: usize = args[1].parse().unwrap();
+    let writers: usize = args[2].parse().unwrap();
+    let deadline: u64 = args[3].parse().unwrap();
+    sync42::verif::set_slots(slots);
+    let a: Vec<&str> = vec!["--path", &root];
+    let o = LsmtkOptions::from_arguments_relaxed("c20", &a).0;
+    let kvs = match std::panic::catch_unwind(|| KeyValueStore::open(o)) {
+        Ok(Ok(k)) => Arc::new(k),
+        _ => {
+            println!("RING openfailed");
+            std::process::exit(0);
+        }
+    };
+    let done = Arc::new(AtomicUsize::new(0));
+    KeyValueStore::verif_gate_arm("w_logged", 0, 0);
+    let spawn_writer = |i: usize| {
+        let k2 = Arc::clone(&kvs);
+        let d = Arc::clone(&done);
+        std::thread::spawn(move || {
+            KeyValueStore::verif_set_tid(i as u64);
+            let key = format!("k{i:04}");
+            let r = std::panic::catch_unwind(std::panic::AssertUnwindSafe(|| k2.put(key.as_bytes(), b"v")));
+            if matches!(r, Ok(Ok(()))) {
+                d.fetch_add(1, Ordering::SeqCst);
+            }
+        });
+    };
+    spawn_writer(0);
+    let parked = KeyValueStore::verif_gate_wait_parked("w_logged", 0, std::time::Duration::from_millis(deadline));
+    for i in 1..writers {
+        spawn_writer(i);
+        std::thread::sleep(std::time::Duration::from_millis(60));
+    }
+    {
+        let k2 = Arc::clone(&kvs);
+        let d = Arc::clone(&done);
+        std::thread::spawn(move || {
+            KeyValueStore::verif_set_tid(100);
+            let mut tomb = false;
+            let r = std::panic::catch_unwind(std::panic::AssertUnwindSafe(|| k2.load(b"k0000", &mut tomb)));
+            if matches!(r, Ok(Ok(_))) {
+                d.fetch_add(1, Ordering::SeqCst);
+            }
+        });
+    }
+    std::thread::sleep(std::time::Duration::from_millis(100));
+    let before = done.load(Ordering::SeqCst);
+    KeyValueStore::verif_gate_release("w_logged", 0);
+    let t0 = std::time::Instant::now();
+    while t0.elapsed().as_millis() < deadline as u128 && done.load(Ordering::SeqCst) < writers + 1 {
+        std::thread::sleep(std::time::Duration::from_millis(2));
+    }
+    let n = done.load(Ordering::SeqCst);
+    let verdict = if n == writers + 1 {
+        "allreturned"
+    } else if n == 0 {
+        "allstuck"
+    } else {
+        "partial"
+    };
+    println!(
+        "RING slots={slots} writers={writers} gate_parked={} returned_before_release={before} returned={n}/{} verdict={verdict}",
+        parked as u8,
+        writers + 1
+    );
+    std::process::exit(0);
+}
+
 fn main() {
     let args: Vec<String> = std::env::args().collect();
     hx::quiet_panics();
@@ -406,6 +523,7 @@ fn main() {
         }
         Some("consts") => consts(),
         Some("store") => store(&args[2..]),
+        Some("ring") => ring(&args[2..]),
         _ => {
             eprintln!("usage: c20 sel | consts | store DIR FLAGS..");
             std::process::exit(2);
